@@ -599,5 +599,38 @@ func (w *World) eventSorts(name string, from *ssa.Function) ([]string, []string,
 			return as, rs, true
 		}
 	}
+	// a method invoked through some other interface in the function under verification
+	// (hash.Hash.Write, ...): sorts from the invoked method's signature
+	if from != nil {
+		for _, b := range from.Blocks {
+			for _, ins := range b.Instrs {
+				ci, ok := ins.(ssa.CallInstruction)
+				if !ok {
+					continue
+				}
+				var sig *types.Signature
+				if name == "dyncall" && !ci.Common().IsInvoke() {
+					// a call of a function value read out of a data structure
+					switch ci.Common().Value.(type) {
+					case *ssa.Function, *ssa.MakeClosure, *ssa.Builtin, *ssa.Parameter:
+						continue
+					}
+					sig = ci.Common().Signature()
+				} else if ci.Common().IsInvoke() && ci.Common().Method.Name() == name {
+					sig = ci.Common().Method.Type().(*types.Signature)
+				} else {
+					continue
+				}
+				var as, rs []string
+				for j := 0; j < sig.Params().Len(); j++ {
+					as = append(as, evSort(sig.Params().At(j).Type()))
+				}
+				for j := 0; j < sig.Results().Len(); j++ {
+					rs = append(rs, evSort(sig.Results().At(j).Type()))
+				}
+				return as, rs, true
+			}
+		}
+	}
 	return nil, nil, false
 }
